@@ -71,6 +71,12 @@ class Prop(Bip32Prop):
                 other = bytes(rng.randrange(256) for _ in range(32))
                 out = (sb + other) if app == 1 else (other + sb)
                 add(app, 0, 0, stub={str(nsteps): out.hex()}, note="secret=%s" % hex(secret))
+        # final entropy with leading zero bytes / all zero / all ones, for the applications that slice or re-encode it
+        for app, param, nsteps in ((0, 12, 5), (0, 24, 5), (3, 16, 4), (3, 64, 4), (4, 20, 4), (4, 86, 4), (2, 0, 3), (1, 0, 3)):
+            for pat in ("lz", "zero", "ones"):
+                out = {"lz": b"\x00\x00" + bytes(rng.randrange(256) for _ in range(29)) + b"\x00" + b"\x00" + bytes(rng.randrange(1, 256) for _ in range(31)),
+                       "zero": b"\x00" * 64, "ones": b"\xff" * 64}[pat]
+                add(app, param, 1, stub={str(nsteps): out.hex()}, note="entropy " + pat)
         return cases
 
     def run_impl(self, case):
